@@ -119,6 +119,28 @@ mod string_arithmetic {
 
     impl_exact_rem!(i32, i128, u8);
 
+    /// Left shift that is `None` when the shift amount is out of range (like `checked_shl`)
+    /// and also when a bit is shifted out of the type: the result is then not the exact
+    /// value, and the same shift fails at run time.
+    trait ExactShl: Sized {
+        fn exact_shl(self, amount: u32) -> Option<Self>;
+    }
+
+    macro_rules! impl_exact_shl {
+        ($($ty:ty),+) => {
+            $(
+                impl ExactShl for $ty {
+                    fn exact_shl(self, amount: u32) -> Option<Self> {
+                        let shifted = self.checked_shl(amount)?;
+                        (shifted >> amount == self).then_some(shifted)
+                    }
+                }
+            )+
+        };
+    }
+
+    impl_exact_shl!(i32, i128, u8);
+
     macro_rules! parse {
         ($val:expr, $ty:ty) => {
             <std::result::Result<_, _> as anyhow::Context<_, _>>::with_context(
@@ -318,7 +340,7 @@ mod string_arithmetic {
     number_impl!(checked_add as Add, add);
     number_impl!(checked_sub as Sub, sub);
     number_impl!(checked_mul as Mul, mul);
-    number_impl!(bitshift checked_shl as Shl, shl);
+    number_impl!(bitshift exact_shl as Shl, shl);
     number_impl!(bitshift checked_shr as Shr, shr);
     number_impl!(fpNonzero checked_div as Div, div);
     number_impl!(fpNonzero exact_rem as Rem, rem);
